@@ -65,6 +65,7 @@ class ParallelAction : public AssembleAction {
 
   private:
     void stopAllActions();
+    bool tryFinish();   //!< 检查结束条件，满足则结束
     void pauseAllActions();
 
     void onChildFinished(int index, bool is_succ);
